@@ -25,7 +25,8 @@ pub struct TwoHopCase {
     pub v2: bool,
     /// 0 = well-formed; 1 = same pool twice; 2 = second leg's direction flipped (legs do not share the intermediate mint)
     pub malformed: u8,
-    /// bit 0 / bit 1: the Oracle account of leg one / leg two is passed READ-ONLY, in the two-hop and in that leg's single swap alike
+    /// bit 0 / bit 1: the Oracle account of leg one / leg two is passed READ-ONLY, in the two-hop and in that leg's single swap alike;
+    /// bit 2 / bit 3: the Oracle account of leg one / leg two is replaced by the OTHER leg's pool's Oracle address, likewise in both
     #[serde(default)]
     pub readonly_oracle: u8,
 }
@@ -41,11 +42,22 @@ fn demote(mut ix: solana_program::instruction::Instruction, key: &Pubkey) -> sol
 }
 
 fn demote_oracles(w: &World, mut ix: solana_program::instruction::Instruction, c: &TwoHopCase, p_one: usize, p_two: usize) -> solana_program::instruction::Instruction {
+    let (o1, o2) = (w.pools[p_one].oracle, w.pools[p_two].oracle);
     if c.readonly_oracle & 1 != 0 {
-        ix = demote(ix, &w.pools[p_one].oracle);
+        ix = demote(ix, &o1);
     }
     if c.readonly_oracle & 2 != 0 {
-        ix = demote(ix, &w.pools[p_two].oracle);
+        ix = demote(ix, &o2);
+    }
+    // substitution by position: the first occurrence of o1 is leg one's slot, the occurrence of o2 leg two's
+    if c.readonly_oracle & 12 != 0 && o1 != o2 {
+        let (i1, i2) = (ix.accounts.iter().position(|m| m.pubkey == o1), ix.accounts.iter().position(|m| m.pubkey == o2));
+        if let (Some(i1), true) = (i1, c.readonly_oracle & 4 != 0) {
+            ix.accounts[i1].pubkey = o2;
+        }
+        if let (Some(i2), true) = (i2, c.readonly_oracle & 8 != 0) {
+            ix.accounts[i2].pubkey = o1;
+        }
     }
     ix
 }
@@ -121,12 +133,23 @@ fn single(w: &mut World, pool: usize, user: usize, sp: &SwapParams, v2: bool) ->
 }
 
 fn single_ro(w: &mut World, pool: usize, user: usize, sp: &SwapParams, v2: bool, readonly_oracle: bool) -> Result<(u64, u64), u64> {
+    single_tampered(w, pool, user, sp, v2, readonly_oracle, None)
+}
+
+fn single_tampered(w: &mut World, pool: usize, user: usize, sp: &SwapParams, v2: bool, readonly_oracle: bool, oracle_instead: Option<Pubkey>) -> Result<(u64, u64), u64> {
     let pl = w.pools[pool].clone();
     let (mi, mo) = if sp.a_to_b { (pl.mint_a.key, pl.mint_b.key) } else { (pl.mint_b.key, pl.mint_a.key) };
     let (i0, o0) = (bal(w, user, &mi), bal(w, user, &mo));
     let mut ix = if v2 { w.ix_swap_v2(pool, user, sp) } else { w.ix_swap(pool, user, sp) };
     if readonly_oracle {
         ix = demote(ix, &pl.oracle);
+    }
+    if let Some(other) = oracle_instead {
+        for m in ix.accounts.iter_mut() {
+            if m.pubkey == pl.oracle {
+                m.pubkey = other;
+            }
+        }
     }
     let o = w.exec(&ix);
     if !o.ok() {
@@ -192,10 +215,13 @@ pub fn check_case(c: &TwoHopCase, l: &mut Local, bounds_only: bool) -> Result<()
     let mut wb = s.h.w.clone();
     let neutral = |amount: u64, a_to_b: bool, limit: u128, exact_in: bool| SwapParams { amount, threshold: SwapParams::neutral_threshold(exact_in), sqrt_price_limit: limit, exact_in, a_to_b };
     let (ro1, ro2) = (c.readonly_oracle & 1 != 0, c.readonly_oracle & 2 != 0);
+    let (orc1, orc2) = (s.h.w.pools[s.p_one].oracle, s.h.w.pools[s.p_two].oracle);
+    let sub1 = (c.readonly_oracle & 4 != 0 && orc1 != orc2).then_some(orc2);
+    let sub2 = (c.readonly_oracle & 8 != 0 && orc1 != orc2).then_some(orc1);
     let singles: Result<((u64, u64), (u64, u64)), (u8, u64)> = if p.exact_in {
-        match single_ro(&mut wb, s.p_one, s.user, &neutral(p.amount, p.a_to_b_one, p.limit_one, true), s.v2, ro1) {
+        match single_tampered(&mut wb, s.p_one, s.user, &neutral(p.amount, p.a_to_b_one, p.limit_one, true), s.v2, ro1, sub1) {
             Err(e) => Err((1, e)),
-            Ok(r1) => match single_ro(&mut wb, s.p_two, s.user, &neutral(r1.1, p.a_to_b_two, p.limit_two, true), s.v2, ro2) {
+            Ok(r1) => match single_tampered(&mut wb, s.p_two, s.user, &neutral(r1.1, p.a_to_b_two, p.limit_two, true), s.v2, ro2, sub2) {
                 Err(e) => Err((2, e)),
                 Ok(r2) => Ok((r1, r2)),
             },
@@ -203,11 +229,11 @@ pub fn check_case(c: &TwoHopCase, l: &mut Local, bounds_only: bool) -> Result<()
     } else {
         // learn leg two's input by a dry run, then execute leg one (exact-out of that amount) and leg two
         let mut dry = s.h.w.clone();
-        match single_ro(&mut dry, s.p_two, s.user, &neutral(p.amount, p.a_to_b_two, p.limit_two, false), s.v2, ro2) {
+        match single_tampered(&mut dry, s.p_two, s.user, &neutral(p.amount, p.a_to_b_two, p.limit_two, false), s.v2, ro2, sub2) {
             Err(e) => Err((2, e)),
-            Ok(d2) => match single_ro(&mut wb, s.p_one, s.user, &neutral(d2.0, p.a_to_b_one, p.limit_one, false), s.v2, ro1) {
+            Ok(d2) => match single_tampered(&mut wb, s.p_one, s.user, &neutral(d2.0, p.a_to_b_one, p.limit_one, false), s.v2, ro1, sub1) {
                 Err(e) => Err((1, e)),
-                Ok(r1) => match single_ro(&mut wb, s.p_two, s.user, &neutral(p.amount, p.a_to_b_two, p.limit_two, false), s.v2, ro2) {
+                Ok(r1) => match single_tampered(&mut wb, s.p_two, s.user, &neutral(p.amount, p.a_to_b_two, p.limit_two, false), s.v2, ro2, sub2) {
                     Err(e) => Err((2, e)),
                     Ok(r2) => Ok((r1, r2)),
                 },
@@ -224,7 +250,11 @@ pub fn check_case(c: &TwoHopCase, l: &mut Local, bounds_only: bool) -> Result<()
         (Err((leg, code)), true) => return Err(format!("two-hop succeeded although leg {leg} fails on its own with {code}")),
         (Err((leg, code)), false) => {
             l.count(&format!("both_fail/leg{leg}/{code}"));
-            if c.readonly_oracle != 0 && matches!(code, 3006 | 2000) {
+            if c.readonly_oracle & 12 != 0 {
+                l.count("foreign_oracle_refused_by_two_hop_and_single_alike");
+                l.nontrivial(hash_of(c));
+            }
+            if c.readonly_oracle & 3 != 0 && matches!(code, 3006 | 2000) {
                 l.count("read_only_oracle_refused_by_two_hop_and_single_alike");
                 l.nontrivial(hash_of(c));
             }
@@ -380,7 +410,7 @@ pub fn case_strategy() -> BoxedStrategy<TwoHopCase> {
         .prop_map(|v| v.into_iter().flatten().collect::<Vec<Op>>()),
         prop::collection::vec(op_strategy(false), 0..=8),
         (any::<bool>(), any::<bool>(), 0u8..2, swap_amount_strategy(), any::<bool>()),
-        (prop_oneof![3 => Just(LimitSel::None), 1 => limit_strategy()], prop_oneof![3 => Just(LimitSel::None), 1 => limit_strategy()], any::<bool>(), prop_oneof![12 => Just(0u8), 1 => Just(1u8), 1 => Just(2u8)], prop_oneof![10 => Just(0u8), 1 => Just(1u8), 1 => Just(2u8), 1 => Just(3u8)]),
+        (prop_oneof![3 => Just(LimitSel::None), 1 => limit_strategy()], prop_oneof![3 => Just(LimitSel::None), 1 => limit_strategy()], any::<bool>(), prop_oneof![12 => Just(0u8), 1 => Just(1u8), 1 => Just(2u8)], prop_oneof![10 => Just(0u8), 1 => Just(1u8), 1 => Just(2u8), 1 => Just(3u8), 1 => Just(4u8), 1 => Just(8u8), 1 => Just(12u8)]),
     )
         .prop_map(|(hist1, spec2, mut pre2, ops2, (share_a, forward, trader, amount, exact_in), (limit_one, limit_two, v2, malformed, readonly_oracle))| {
             // positions of pool two are opened by the same LPs; position indexes are world-global, so the prelude's
